@@ -239,7 +239,8 @@ def runAdapter (comp : Option Compression) (tr : Bool) (stream : Option Int16) (
     match batchTypeTok ty, consistencyTok c, serialTok sc, i64Tok ts,
           ss.mapM (repeated "^" stmtCtxTok), vs.mapM (repeated "^" valuesTok) with
     | some ty, some c, some sc, some ts, some ss, some vs =>
-      if carrier == "vec" || carrier == "iter" || carrier == "tuple" then
+      let nl := vs.flatten.length
+      if carrier == "vec" || carrier == "iter" || (carrier == "tuple" && 1 ≤ nl && nl ≤ 4) then
         let body := encodeBatchA ty ss.flatten vs.flatten c sc ts
         finishWith (fun k => encodeFrameOf k body Generated.requestOpcode_Batch comp tr) body comp stream impl
       else "bad-case"
